@@ -38,7 +38,7 @@ Proof.
   - destruct (low_ix ix st) as [ix'|e]; cbn [bind] in H; [|discriminate].
     destruct (take st) as [[t s1]|e] eqn:Ht; cbn [bind] in H; [|discriminate].
     inversion H; subst. cbn in Hk. destruct Hk as [<-|[]]. eapply take_free; eauto.
-  - destruct (alook r (l_rf st)); inversion H; subst. destruct Hk.
+  - destruct (rf_lookup r st); inversion H; subst. destruct Hk.
   - destruct (alook v (l_lv st)); inversion H; subst. destruct Hk.
 Qed.
 
@@ -67,41 +67,42 @@ Proof.
 Qed.
 
 Definition stmt_frame (fd : bool) (s : stmt) : Prop :=
-  forall st c st', lower_stmt fd s st = Ok (c, st') -> forall k, In k (sws c) -> free_at st k.
+  plain s = true -> forall st c st', lower_stmt fd s st = Ok (c, st') -> forall k, In k (sws c) -> free_at st k.
 Definition block_frame (fd : bool) (b : block) : Prop :=
-  forall st c st', lower_block fd b st = Ok (c, st') -> forall k, In k (sws c) -> free_at st k.
+  bplain b = true -> forall st c st', lower_block fd b st = Ok (c, st') -> forall k, In k (sws c) -> free_at st k.
 
 Ltac inv_ok H := inversion H; subst; clear H.
 
 Theorem lower_frame_all : forall fd, (forall s, stmt_frame fd s) /\ (forall b, block_frame fd b).
 Proof.
   intro fd. apply stmt_block_ind; unfold stmt_frame, block_frame.
-  - intros q st c st' H k Hk. cbn [lower_stmt] in H. destruct (alook q (l_q st)); [discriminate|].
+  - intros q _ st c st' H k Hk. cbn [lower_stmt] in H. destruct (alook q (l_q st)); [discriminate|].
     inv_ok H. destruct Hk.
-  - intros g q st c st' H k Hk. cbn [lower_stmt] in H.
+  - intros g q _ st c st' H k Hk. cbn [lower_stmt] in H.
     destruct (qubit_id q st); cbn [bind] in H; [|discriminate]. inv_ok H. destruct Hk.
-  - intros ax q n d st c st' H k Hk. cbn [lower_stmt] in H.
+  - intros ax q n d _ st c st' H k Hk. cbn [lower_stmt] in H.
     destruct (qubit_id q st); cbn [bind] in H; [|discriminate]. inv_ok H. destruct Hk.
-  - intros t q1 q2 st c st' H k Hk. cbn [lower_stmt] in H.
+  - intros t q1 q2 _ st c st' H k Hk. cbn [lower_stmt] in H.
     destruct (qubit_id q1 st); cbn [bind] in H; [|discriminate].
     destruct (qubit_id q2 st); cbn [bind] in H; [|discriminate]. inv_ok H. destruct Hk.
-  - intros q ip a ix st c st' H k Hk. cbn [lower_stmt] in H.
+  - intros q ip a ix _ st c st' H k Hk. cbn [lower_stmt] in H.
     destruct (low_ix ix st); cbn [bind] in H; [|discriminate].
     destruct (low_meas q ip false st) as [[[m c0] s1]|e] eqn:Em; cbn [bind] in H; [|discriminate].
     inv_ok H. rewrite sws_app, (low_meas_writes _ _ _ _ _ _ _ Em) in Hk. destruct Hk.
-  - intros q ip a st c st' H k Hk. cbn [lower_stmt] in H.
+  - intros q ip a _ st c st' H k Hk. cbn [lower_stmt] in H.
     destruct (declare a 1 None st) as [st0|e0]; cbn [bind] in H; [|discriminate].
     destruct (low_meas q ip false st0) as [[[m c0] s1]|e] eqn:Em; cbn [bind] in H; [|discriminate].
     inv_ok H. rewrite sws_app, (low_meas_writes _ _ _ _ _ _ _ Em) in Hk. destruct Hk.
-  - intros q ip r st c st' H k Hk. cbn [lower_stmt] in H.
+  - intros q ip r _ st c st' H k Hk. cbn [lower_stmt] in H.
+    destruct (alook r (l_rf st)); [discriminate|].
     destruct (low_meas q ip true st) as [[[m c0] s1]|e] eqn:Em; cbn [bind] in H; [|discriminate].
     inv_ok H. rewrite (low_meas_writes _ _ _ _ _ _ _ Em) in Hk. destruct Hk.
-  - intros q st c st' H k Hk. cbn [lower_stmt] in H.
+  - intros q _ st c st' H k Hk. cbn [lower_stmt] in H.
     destruct (qubit_id q st); cbn [bind] in H; [|discriminate]. inv_ok H. destruct Hk.
-  - intros a len init st c st' H k Hk. cbn [lower_stmt] in H.
+  - intros a len init _ st c st' H k Hk. cbn [lower_stmt] in H.
     destruct (Nat.eqb _ 0); [discriminate|].
     destruct (declare a _ init st); cbn [bind] in H; [|discriminate]. inv_ok H. destruct Hk.
-  - (* SFutAdd *) intros a ix o m st c st' H k Hk. cbn [lower_stmt] in H.
+  - (* SFutAdd *) intros a ix o m _ st c st' H k Hk. cbn [lower_stmt] in H.
     destruct (low_ix ix st) as [ix'|e]; cbn [bind] in H; [|discriminate].
     destruct (take st) as [[t st1]|e] eqn:Ht; cbn [bind] in H; [|discriminate].
     destruct (low_src o st1) as [[[[lo y] ts] st2]|e] eqn:Hs; cbn [bind] in H; [|discriminate].
@@ -112,17 +113,19 @@ Proof.
     + apply in_app_or in Hk. destruct Hk as [Hk|Hk].
       * eapply free_take; [exact Ht|]. eapply low_src_writes; eauto.
       * destruct m; cbn in Hk; destruct Hk as [<-|[]]; eapply take_free; eauto.
-  - (* SRegAdd *) intros r o m st c st' H k Hk. cbn [lower_stmt] in H.
-    destruct (alook r (l_rf st)); [|discriminate].
+  - (* SRegAdd *) intros r o m _ st c st' H k Hk. cbn [lower_stmt] in H.
+    destruct (rf_lookup r st) as [[[] k0]|]; try discriminate.
     destruct (low_src o st) as [[[[lo y] ts] st1]|e] eqn:Hs; cbn [bind] in H; [|discriminate].
     match type of H with Ok (?cc, _) = _ => assert (Ec : c = cc) by (inversion H; reflexivity) end.
     clear H. subst c. rewrite sws_map_XI, flat_map_app in Hk. apply in_app_or in Hk. destruct Hk as [Hk|Hk].
     + eapply low_src_writes; eauto.
     + destruct m; cbn in Hk; destruct Hk.
-  - (* SIf *) intros c cb x y body IH st code st' H k Hk. cbn [lower_stmt] in H.
+  - (* SNewReg *) intros r init Hp. discriminate.
+  - (* SUAdd *) intros r o m Hp. discriminate.
+  - (* SIf *) intros c cb x y body IH Hp st code st' H k Hk. cbn [plain] in Hp. specialize (IH Hp). cbn [lower_stmt] in H.
     destruct (lower_block fd body st) as [[cbody st1]|e] eqn:Hb; cbn [bind] in H; [|discriminate].
     destruct (is_nil cbody); [inv_ok H; destruct Hk|].
-    assert (E1 := active_restored_block _ _ _ _ _ Hb).
+    assert (E1 := active_restored_block _ _ _ _ _ Hp Hb).
     destruct (low_cval x st1) as [[[[lx px] tx] st2]|e] eqn:Hx; cbn [bind] in H; [|discriminate].
     assert (Wx := low_cval_writes _ _ _ _ _ _ Hx).
     assert (Wb : forall k, In k (sws cbody) -> free_at st k) by (intros; eapply IH; eauto).
@@ -138,26 +141,31 @@ Proof.
          assert (Wy := low_cval_writes _ _ _ _ _ _ Hy k Hk);
          destruct (low_cval_held _ _ _ _ _ _ Hx) as [[_ ->]|(t & _ & Ht)];
          [exact Wy|eapply free_take; eauto] ]).
-  - (* SLoop *) intros cb v start stop step body IH st code st' H k Hk. cbn [lower_stmt] in H.
+  - (* SLoop *) intros cb v oreg start stop step body IH Hp st code st' H k Hk. destruct oreg; [discriminate|].
+    cbn [plain] in Hp. specialize (IH Hp). cbn [lower_stmt] in H.
+    destruct (alook v (l_lv st)); [discriminate|].
     destruct (take st) as [[r st1]|e] eqn:Ht; cbn [bind] in H; [|discriminate].
     destruct (lower_block fd body (bind_lvr v r st1)) as [[cbody st2]|e] eqn:Hb; cbn [bind] in H; [|discriminate].
     destruct (is_nil cbody); inv_ok H; [destruct Hk|].
     cbn in Hk. rewrite app_nil_r in Hk. destruct Hk as [<-|Hk]; [eapply take_free; eauto|].
     eapply free_take; [exact Ht|]. eapply free_same with (a := bind_lvr v r st1); [reflexivity|].
     eapply IH; eauto.
-  - (* SForeach *) intros enum v a body IH st code st' H k Hk. cbn [lower_stmt] in H.
+  - (* SForeach *) intros enum v a body IH Hp st code st' H k Hk. cbn [plain] in Hp. specialize (IH Hp). cbn [lower_stmt] in H.
     destruct (alook a (l_len st)); [|discriminate].
+    destruct (alook v (l_lv st)); [discriminate|].
     destruct (take st) as [[r st1]|e] eqn:Ht; cbn [bind] in H; [|discriminate].
     destruct (lower_block fd body (bind_lvr v r st1)) as [[cbody st2]|e] eqn:Hb; cbn [bind] in H; [|discriminate].
     destruct (is_nil cbody); inv_ok H; [destruct Hk|].
     cbn in Hk. rewrite app_nil_r in Hk. destruct Hk as [<-|Hk]; [eapply take_free; eauto|].
     eapply free_take; [exact Ht|]. eapply free_same with (a := bind_lvr v r st1); [reflexivity|].
     eapply IH; eauto.
-  - (* SLoopUntil *) intros v maxit body IHb cx bound cleanup IHc st code st' H k Hk. cbn [lower_stmt] in H.
+  - (* SLoopUntil *) intros v maxit body IHb cx bound cleanup IHc Hp st code st' H k Hk. cbn [plain] in Hp.
+    apply andb_prop in Hp. destruct Hp as [Hp1 Hp2]. specialize (IHb Hp1). specialize (IHc Hp2). cbn [lower_stmt] in H.
+    destruct (alook v (l_lv st)); [discriminate|].
     destruct (take st) as [[r st1]|e] eqn:Ht; cbn [bind] in H; [|discriminate].
     destruct (lower_block fd body (bind_lvr v r st1)) as [[cbody st2]|e] eqn:Hb; cbn [bind] in H; [|discriminate].
     destruct (is_nil cbody); [inv_ok H; destruct Hk|].
-    assert (E2 := active_restored_block _ _ _ _ _ Hb). cbn [bind_lvr with_lvs l_act] in E2.
+    assert (E2 := active_restored_block _ _ _ _ _ Hp1 Hb). cbn [bind_lvr with_lvs l_act] in E2.
     destruct (low_cval cx st2) as [[[[lx px] tx] st3]|e] eqn:Hx; cbn [bind] in H; [|discriminate].
     destruct (lower_block fd cleanup (release_all tx st3)) as [[ccl st4]|e] eqn:Hc; cbn [bind] in H; [|discriminate].
     inv_ok H. cbn in Hk. rewrite app_nil_r in Hk.
@@ -170,7 +178,7 @@ Proof.
       * eapply free_same; [exact E2|].
         assert (G := held_release _ _ _ (low_cval_held _ _ _ _ _ _ Hx)).
         eapply free_same; [exact (proj1 G)|]. eapply IHc; eauto.
-  - (* SEpr *) intros kk body IH st code st' H k Hk. cbn [lower_stmt] in H. destruct kk.
+  - (* SEpr *) intros kk body IH Hp st code st' H k Hk. cbn [plain] in Hp. specialize (IH Hp). cbn [lower_stmt] in H. destruct kk.
     + destruct body; [|discriminate]. inv_ok H. destruct Hk.
     + destruct body; [|discriminate].
       destruct (transient 5 _); cbn [bind] in H; [|discriminate]. inv_ok H. destruct Hk.
@@ -194,19 +202,20 @@ Proof.
       destruct (lower_block fd body s1) as [[cb_ s2]|e] eqn:Hb; cbn [bind] in H; [|discriminate].
       destruct (transient 4 s2); cbn [bind] in H; [|discriminate].
       inv_ok H. cbn in Hk. eapply free_take; [exact H1|]. eapply IH; eauto.
-  - intros st c st' H. cbn [lower_stmt] in H. discriminate.
-  - intros st c st' H k Hk. cbn [lower_block] in H. inv_ok H. destruct Hk.
-  - intros s IHs b IHb st c st' H k Hk. cbn [lower_block] in H.
+  - intros _ st c st' H. cbn [lower_stmt] in H. discriminate.
+  - intros _ st c st' H k Hk. cbn [lower_block] in H. inv_ok H. destruct Hk.
+  - intros s IHs b IHb Hp st c st' H k Hk. cbn [bplain] in Hp. apply andb_prop in Hp. destruct Hp as [Hp1 Hp2].
+    specialize (IHs Hp1). specialize (IHb Hp2). cbn [lower_block] in H.
     destruct (lower_stmt fd s st) as [[c1 st1]|e] eqn:H1; cbn [bind] in H; [|discriminate].
     destruct (lower_block fd b st1) as [[c2 st2]|e] eqn:H2; cbn [bind] in H; [|discriminate].
     inv_ok H. rewrite sws_app in Hk. apply in_app_or in Hk. destruct Hk as [Hk|Hk].
     + eapply IHs; eauto.
-    + eapply free_same; [exact (active_restored _ _ _ _ _ H1)|]. eapply IHb; eauto.
+    + eapply free_same; [exact (active_restored _ _ _ _ _ Hp1 H1)|]. eapply IHb; eauto.
 Qed.
 
-Theorem lower_frame : forall fd s st c st',
+Theorem lower_frame : forall fd s st c st', plain s = true ->
   lower_stmt fd s st = Ok (c, st') -> forall k, In k (sws c) -> nth_error (l_act st) k = Some false.
-Proof. intros fd s st c st' H k Hk. exact (proj1 (lower_frame_all fd) s st c st' H k Hk). Qed.
+Proof. intros fd s st c st' Hp H k Hk. exact (proj1 (lower_frame_all fd) s Hp st c st' H k Hk). Qed.
 
 (* ------------------------------------------------------------------ executing the code *)
 Lemma rw_not_in : forall r k, ~ In k (rw r) -> reg_eqb (Rg BR k) r = false.
@@ -285,11 +294,11 @@ Definition lv_active (st : lst) : Prop :=
 (* Second sentence of C14 / lower_frame of C05, semantically: run the code of a
    statement lowered in a state where the enclosing loop variables are active:
    none of their registers changes. *)
-Theorem live_values_preserved : forall fd s st c st' m m',
+Theorem live_values_preserved : forall fd s st c st' m m', plain s = true ->
   lower_stmt fd s st = Ok (c, st') -> lv_active st -> sx c m m' ->
   forall v r, In (v, r) (l_lv st) -> m_reg m' (Rg BR r) = m_reg m (Rg BR r).
 Proof.
-  intros fd s st c st' m m' H Hlv Hsx v r Hin.
+  intros fd s st c st' m m' Hp H Hlv Hsx v r Hin.
   apply (proj1 sx_frame _ _ _ Hsx). intro Hk.
-  assert (F := lower_frame _ _ _ _ _ H r Hk). rewrite (Hlv _ _ Hin) in F. discriminate.
+  assert (F := lower_frame _ _ _ _ _ Hp H r Hk). rewrite (Hlv _ _ Hin) in F. discriminate.
 Qed.
